@@ -338,7 +338,12 @@ static void emit_factored(Rng & rng, int nsamples) {
         for (size_t i = 0; i < S.size(); ++i) s[i] = rng.below(S[i]);
         for (size_t i = 0; i < A.size(); ++i) a[i] = rng.below(A[i]);
         std::vector<double> us; for (size_t i = 0; i < S.size(); ++i) us.push_back(d01(mir));
-        auto [s1, rew] = model.sampleSR(s, a);
+        AI::Factored::State s1; double rew = 0.0;
+        if (rng.coin()) { auto res = model.sampleSR(s, a); s1 = std::get<0>(res); rew = std::get<1>(res); }
+        else {   // sampleSRs: per-basis rewards, summed here in basis order as getValue does
+            auto res = model.sampleSRs(s, a); s1 = std::get<0>(res);
+            const auto & rews = std::get<1>(res); for (long i = 0; i < rews.size(); ++i) rew += rews[i];
+        }
         Line l; l << "C08" << "fsr" << (size_t)S.size();
         for (size_t i = 0; i < S.size(); ++i) {
             const auto j = model.getGraph().getId(i, s, a);
@@ -375,7 +380,7 @@ static void emit_sparse_model_witness() {
 }
 
 // ---------------------------------------------------------------- cases
-static const long kWitness = 13;
+static const long kWitness = 14;
 
 long verif::verif_ncases(const std::string & tier) { return kWitness + (tier == "thorough" ? 250000 : 20000); }
 
@@ -397,6 +402,11 @@ static void witness(Rng & rng, long idx) {
         case 9: emit_vose(rng, {0.125, 0.25, 0.125, 0.5}, 8); break;
         case 10: emit_rand({TWO53 / 2, TWO53 / 4, TWO53 / 4, 0, TWO53 - 1}); break;
         case 12: emit_sparse_model_witness(); break;
+        case 13: {                                                               // sparse: the same draw on the LAST stored row: the scan leaves the arrays
+            std::vector<std::vector<double>> rows{{0.5, 0.5 - e21, 0.0}};
+            std::printf("#stat sparse_last_row_above_sum 1\n"); std::fflush(stdout);
+            emit_sparse(rows, 0, {TWO53 - 1}); break;
+        }
         default: emit_rand({}); break;                                           // S = 1
     }
 }
